@@ -49,7 +49,8 @@ def gen(rng, tier):
                 if rng.random() < 0.1:
                     sl = rng.choice([DURMAX, U64, DURMAX // 3])
                     total = rng.choice([DURMAX, sl, sl - 1, 5, min(DURMAX, 2 * sl + 1)])
-                assert sl == 0 or total // sl <= 300  # the real loop is linear in total/slice
+                if sl != 0 and total // sl > 300:  # the real loop is linear in total/slice
+                    total = sl * 300 + (total % sl)
                 ops.append({"op": "slices", "total": str(total), "slice": str(sl)})
             else:
                 sec = rng.choice(secs) if rng.random() < 0.7 else rng.randrange(0, 2**40)
